@@ -125,12 +125,54 @@ def purity(body, program, stack=()):
                 pure = False
             elif t["k"] == "call":
                 argtys = [_op_ty(body, a) for a in t["args"]]
-                if not call_is_pure(t["fn"], argtys, program, stack):
+                if not call_is_pure(t["fn"], argtys, program, stack) and not _local_mutation_only(body, t):
                     pure = False
             if not pure:
                 break
     _purity[k] = (body, pure)
     return pure
+
+
+def _local_mutation_only(body, t):
+    """`x op= y` / mem::swap on function-local variables: the &mut arguments are addresses of locals"""
+    fn = t["fn"]
+    if "indirect" in fn:
+        return False
+    tr = fn.get("trait") or ""
+    p = (fn.get("resolved") or fn).get("path") or fn.get("path") or ""
+    if not (tr.startswith("std::ops::") and tr.endswith("Assign")) and p not in ("std::mem::swap", "core::mem::swap"):
+        return False
+    for a in t["args"]:
+        ty = _op_ty(body, a)
+        if not (ty.startswith("&mut") or ty.startswith("*mut")):
+            continue
+        if a["k"] not in ("copy", "move") or a["place"]["p"]:
+            return False
+        if not _is_addr_of_local(body, a["place"]["l"], 0):
+            return False
+    return True
+
+
+def _is_addr_of_local(body, l, depth):
+    if depth > 4:
+        return False
+    defs = []
+    for bb, idx, s in body.statements():
+        if s["k"] == "assign" and s["place"]["l"] == l and not s["place"]["p"]:
+            defs.append(s["rv"])
+    if len(defs) != 1:
+        return False
+    rv = defs[0]
+    if rv["k"] in ("ref", "rawptr"):
+        pl = rv["place"]
+        if not any(e[0] == "deref" for e in pl["p"]):
+            return True
+        if pl["p"] and pl["p"][0][0] == "deref" and len(pl["p"]) == 1:
+            return _is_addr_of_local(body, pl["l"], depth + 1)
+        return False
+    if rv["k"] == "use" and rv["op"]["k"] in ("copy", "move") and not rv["op"]["place"]["p"]:
+        return _is_addr_of_local(body, rv["op"]["place"]["l"], depth + 1)
+    return False
 
 
 def _operands(rv):
